@@ -52,3 +52,11 @@ class DestinationExists(ResourceError):
 
 class ResourceReadOnly(ResourceError):
     pass
+
+
+class IllegalBackReference(ValueError):
+    """Too many backrefs ("..") in a path: it would escape the filesystem's root."""
+
+    def __init__(self, path: str):
+        self.path = path
+        super().__init__(f"path {path!r} contains back-references outside of filesystem")
